@@ -105,6 +105,7 @@ static void obj_event(const char* tag, int h, struct msa* m, int full)
         sb_kint(&b,"null",0);
         sb_kint(&b,"n",m->numseq);
         sb_kint(&b,"status",m->aligned);
+        sb_kint(&b,"final",m->aligned == ALN_STATUS_FINAL ? 1 : 0);
         sb_kint(&b,"biotype",m->biotype);
         sb_kint(&b,"L",m->L);
         sb_kint(&b,"alnlen",m->alnlen);
